@@ -270,6 +270,33 @@ def well_conditioned(c):
 # generators
 # ---------------------------------------------------------------------------------------------
 
+def near_unit_axis(r):
+    """an axis typed almost, but not exactly, in its canonical (unit) form: a unit vector rounded to 3-7 digits; or oblique"""
+    m = r.random()
+    if m < 0.2:
+        return r.choice([[0.57735, 0.57735, 0.57735], [0.707107, 0.707107, 0.0], [0.0, 0.6, 0.8000001], [0.267261, 0.534522, 0.801784]])
+    while True:
+        v = [r.gauss(0, 1) for _ in range(3)]
+        n = math.sqrt(sum(x * x for x in v))
+        if n > 0.3:
+            break
+    d = r.choice([3, 4, 5, 6, 7])
+    return [round(x / n, d) for x in v]
+
+
+def axis_variants(c):
+    """the same configuration with the axis exactly normalised and with the axis three times as long"""
+    ax = c["params"].get("axis")
+    if ax is None:
+        return []
+    n = math.sqrt(sum(x * x for x in ax))
+    out = []
+    for what, a2 in (("the axis normalised to %r" % [x / n for x in ax], [x / n for x in ax]), ("the axis multiplied by 3", [3.0 * x for x in ax])):
+        c2 = dict(c); c2["params"] = dict(c["params"]); c2["params"]["axis"] = a2
+        out.append({"line": G.impl_line([c2]), "rel": ("same", 1e-11), "what": "axis %r replaced by %s" % (ax, what)})
+    return out
+
+
 def gen_params(r, comp, generic):
     p = {}
     dy = lambda lo, hi, bits=3: (r.uniform(lo, hi) if generic else V.dyadic(r, lo, hi, bits=bits))
@@ -277,8 +304,10 @@ def gen_params(r, comp, generic):
         m = r.random()
         if m < 0.3:
             p["axis"] = None
-        elif m < 0.6:
+        elif m < 0.5:
             p["axis"] = r.choice([[0.0, 0.0, 1.0], [1.0, 0.0, 0.0], [0.0, 1.0, 0.0], [0.0, 0.0, 2.0], [0.0, -4.0, 0.0]])
+        elif m < 0.75:
+            p["axis"] = near_unit_axis(r)
         else:
             while True:
                 a = [dy(-2, 2) for _ in range(3)]
@@ -402,7 +431,9 @@ def gen_ref_case(r, comp, generic=True):
     if comp == "eigenvector":
         p["vector"] = [[V.dyadic(r, -1, 1, bits=4) for _ in range(3)] for _ in range(n)]
     if comp in ("tilt", "spinAngle"):
-        p["axis"] = r.choice([[0.0, 0.0, 1.0], [1.0, 0.0, 0.0], [0.0, 1.0, 0.0]])
+        m = r.random()
+        p["axis"] = r.choice([[0.0, 0.0, 1.0], [1.0, 0.0, 0.0], [0.0, 1.0, 0.0]]) if m < 0.4 else \
+            (near_unit_axis(r) if m < 0.8 else [V.dyadic(r, -2, 2, bits=2) or 1.0, V.dyadic(r, -2, 2, bits=2), 1.5])
     return {"comp": comp, "pbc": 1, "params": p, "groups": [ids], "atoms": atoms, "cell": None, "q0": q0}
 
 
@@ -1519,6 +1550,7 @@ def meta_of_case(r, c):
             what = "group %d listed with a duplicate: %s" % (gi + 1, gl[gi])
         c2["groups"] = gl
         variants.append({"line": G.impl_line([c2]), "rel": rel, "what": what})
+    variants += axis_variants(c)
     return {"what": comp, "case": c, "base_line": G.impl_line([c]), "variants": variants, "period": G.PERIODIC.get(comp)}
 
 
@@ -1536,11 +1568,15 @@ def meta_of_ref(r, c):
             variants.append({"line": G.pos_line(G.move_atoms(atoms, G.IDENT, t)), "rel": ("same", 1e-8), "what": "translation"})
             if comp in ("tilt", "spinAngle"):
                 # rotation about the component's own axis: tilt unchanged, spin angle shifted
-                ax = p["axis"]; ang = r.choice([90.0, 180.0, 270.0]) if exact else r.uniform(-170, 170)
+                ax = G.scale(1.0 / G.norm(p["axis"]), p["axis"]); ang = r.choice([90.0, 180.0, 270.0]) if exact else r.uniform(-170, 170)
+                if exact and any(abs(abs(x) - round(abs(x))) > 1e-12 for x in ax):
+                    exact_here = False
+                else:
+                    exact_here = exact
                 h = math.radians(ang) / 2.0
                 q = [math.cos(h)] + [math.sin(h) * x for x in ax]
                 Ma = G.quat_matrix(q)
-                if exact:
+                if exact_here:
                     Ma = [[float(round(x)) for x in row] for row in Ma]
                 cen = [sum(atoms[i - 1][2 + k] for i in c["groups"][0]) / len(c["groups"][0]) for k in range(3)]
                 moved = []
@@ -1560,6 +1596,7 @@ def meta_of_ref(r, c):
                      "what": "atoms and reference positions listed in the order %s" % perm})
     c3 = dict(c); j = r.randrange(n); l3 = list(ids); l3.insert(r.randint(j + 1, n), ids[j]); c3["groups"] = [l3]
     variants.append({"line": G.impl_line([c3]), "rel": ("same", 0.0) if comp != "orientation" else ("orient", G.IDENT, 0.0), "what": "duplicate listing %s" % l3})
+    variants += axis_variants(c)
     return {"what": comp, "case": c, "base_line": G.impl_line([c]), "variants": variants, "period": G.PERIODIC.get(comp)}
 
 
@@ -1654,6 +1691,8 @@ def judge_meta(run, mt, ilines, iout):
             tag = v["what"].split(" ")[0]
             if "lattice" in v["what"]:
                 sig += ":lattice"
+            elif v["what"].startswith("axis "):
+                sig += ":axis-normalisation"
             elif "duplicate" in v["what"]:
                 sig += ":duplicate"
             elif "listed" in v["what"]:
